@@ -15,6 +15,8 @@ import (
 	"strings"
 	"time"
 
+	"github.com/gogo/protobuf/proto"
+	"gopkg.in/src-d/hercules.v10/internal/pb"
 	"gopkg.in/src-d/hercules.v10/internal/plumbing"
 	"gopkg.in/src-d/hercules.v10/internal/plumbing/identity"
 	"gopkg.in/src-d/hercules.v10/leaves"
@@ -66,6 +68,44 @@ func genMatrix(rng *rand.Rand, n int) []map[int]int64 {
 }
 
 var names = []string{"a.go", "dir/b.py", "пример.txt", "x y.c", "", "z\"q.js", "日本.md"}
+
+func fmtTicks(ticks map[int]map[int]*leaves.DevTick) string {
+	var tks []int
+	for t := range ticks {
+		tks = append(tks, t)
+	}
+	sort.Ints(tks)
+	var out []string
+	for _, t := range tks {
+		var dvs []int
+		for d := range ticks[t] {
+			dvs = append(dvs, d)
+		}
+		sort.Ints(dvs)
+		for _, d := range dvs {
+			st := ticks[t][d]
+			var ls []string
+			for l := range st.Languages {
+				ls = append(ls, l)
+			}
+			sort.Strings(ls)
+			var lg []string
+			for _, l := range ls {
+				v := st.Languages[l]
+				n := l
+				if n == "" {
+					n = "_"
+				}
+				lg = append(lg, fmt.Sprintf("%s=%d/%d/%d", n, v.Added, v.Removed, v.Changed))
+			}
+			out = append(out, fmt.Sprintf("%d:%d:%d:%d/%d/%d:%s", t, d, st.Commits, st.Added, st.Removed, st.Changed, strings.Join(lg, "|")))
+		}
+	}
+	if len(out) == 0 {
+		return "-"
+	}
+	return strings.Join(out, ";")
+}
 
 func main() {
 	seed, count, wo, wi, _, done := hv.Args()
@@ -172,25 +212,64 @@ func main() {
 			c, _ := json.Marshal(map[string]interface{}{"ticks": ticks, "people": dict, "tick_size_ns": int64(tickSize)})
 			return string(c)
 		}
-		fmt.Fprintln(wo, "nop")
-		fmt.Fprintln(wi, "ok")
+		fits := true
+		if rng.Intn(8) == 0 && len(ticks) > 0 {
+			// a counter beyond 32 bits: the written message wraps around (modelled; outside the round-trip law)
+			for _, ds := range ticks {
+				for _, dt := range ds {
+					dt.Added += 1 << 31
+					dt.Commits += 3 << 32
+					fits = false
+					break
+				}
+				break
+			}
+		}
+		fmt.Fprintf(wo, "dvs %d %s\n", identity.AuthorMissing, fmtTicks(ticks))
 		buf.Reset()
 		func() {
 			defer func() {
 				if r := recover(); r != nil {
+					fmt.Fprintln(wi, "panic")
 					hv.Fail("devs-roundtrip", ddesc(), fmt.Sprintf("panic: %v", r))
 				}
 			}()
 			if err := da.Serialize(dres, true, &buf); err != nil {
+				fmt.Fprintln(wi, "error")
 				hv.Fail("devs-roundtrip", ddesc(), "serialize: "+err.Error())
 				return
 			}
+			// the written message, field by field
+			var message pb.DevsAnalysisResults
+			if err := proto.Unmarshal(buf.Bytes(), &message); err != nil {
+				fmt.Fprintln(wi, "error")
+				hv.Fail("devs-roundtrip", ddesc(), "unmarshal: "+err.Error())
+				return
+			}
+			written := map[int]map[int]*leaves.DevTick{}
+			for tk, dd := range message.Ticks {
+				written[int(tk)] = map[int]*leaves.DevTick{}
+				for dv, st := range dd.Devs {
+					dt := &leaves.DevTick{Commits: int(st.Commits), LineStats: plumbing.LineStats{Added: int(st.Stats.Added), Removed: int(st.Stats.Removed), Changed: int(st.Stats.Changed)},
+						Languages: map[string]plumbing.LineStats{}}
+					for l, ls := range st.Languages {
+						dt.Languages[l] = plumbing.LineStats{Added: int(ls.Added), Removed: int(ls.Removed), Changed: int(ls.Changed)}
+					}
+					written[int(tk)][int(dv)] = dt
+				}
+			}
 			b, err := da.Deserialize(buf.Bytes())
 			if err != nil {
+				fmt.Fprintln(wi, "error")
 				hv.Fail("devs-roundtrip", ddesc(), "deserialize: "+err.Error())
 				return
 			}
 			db := b.(leaves.DevsResult)
+			fmt.Fprintf(wi, "%s # %s\n", fmtTicks(written), fmtTicks(db.Ticks))
+			if !fits {
+				stats["devs_counter_beyond_32_bits"]++
+				return
+			}
 			stats["devs"]++
 			if !reflect.DeepEqual(db.Ticks, ticks) && !(len(ticks) == 0 && len(db.Ticks) == 0) {
 				got, _ := json.Marshal(db.Ticks)
